@@ -33,16 +33,26 @@ MaxPrio(prio) == LET A == Active(prio) IN IF A = {} THEN 0 ELSE CHOOSE p \in {pr
 
 (* (i) bounded wait: between two selections of m every other k is due about prio[m]/prio[k] times; *)
 (*     every perturbation may cost one more round.                                                  *)
-WaitBound(m, prio, pert) ==
+(*     Priorities may change while m waits: the bound uses the largest priority value m has had (mx)    *)
+(*     and the smallest value every k has had (lo) in the run so far - a wait accumulated under        *)
+(*     priority 7, or while k still had priority 1, is not late because a priority was changed a moment *)
+(*     ago.  TLC refuted the first version, which used the current priorities (MC_Poll_hi.cfg).        *)
+WaitBound(m, prio, pert, mx, lo) ==
   LET A == Active(prio) IN
-  SumSeq([k \in 1..Len(prio) |-> IF k \in A THEN CeilDiv(prio[m], prio[k]) + 1 ELSE 0], Len(prio)) + Cardinality(A) * (1 + pert)
-(* (ii) proportionality on a perturbation-free stretch: weighted counts stay together               *)
-PropBound(prio) == 2 * MaxPrio(prio) + Cardinality(Active(prio))
+  SumSeq([k \in 1..Len(prio) |-> IF k \in A THEN CeilDiv(mx[m], lo[k]) + 1 ELSE 0], Len(prio)) + Cardinality(A) * (1 + pert)
+(* (ii) proportionality on a perturbation-free stretch: weighted counts stay together.  hi = the       *)
+(*      largest priority observed so far in the run (>= the current maximum): a priority lowered from   *)
+(*      hi leaves a message up to hi virtual ticks away from the others; TLC refuted the first version  *)
+(*      of this bound, which used the current maximum (setprio 7 -> 3, see MC_Poll_hi.cfg).             *)
+PropBound(prio, hi) == 2 * hi + Cardinality(Active(prio))
 
 (* monitor state.  K = number of perturbations (since m's last selection) up to which m's wait is     *)
 (* judged; beyond it m is not judged until it is selected again (keeps the monitor finite, sound).    *)
-MonInit(n) == [wait |-> TLCEval([m \in 1..n |-> 0]), pert |-> TLCEval([m \in 1..n |-> 0]), cnt |-> TLCEval([m \in 1..n |-> 0])]
+MonInit(n) == [wait |-> TLCEval([m \in 1..n |-> 0]), pert |-> TLCEval([m \in 1..n |-> 0]), cnt |-> TLCEval([m \in 1..n |-> 0]), mx |-> TLCEval([m \in 1..n |-> 0]), lo |-> TLCEval([m \in 1..n |-> 0]), hi |-> 0]
 
+(* run extremes of every message's priority (a re-added message is a new message) *)
+MxStep(mon, prio, fresh) == TLCEval([m \in DOMAIN mon.mx |-> IF prio[m] = 0 \/ m = fresh THEN prio[m] ELSE Max2(mon.mx[m], prio[m])])
+LoStep(mon, prio, fresh) == TLCEval([m \in DOMAIN mon.lo |-> IF prio[m] = 0 \/ m = fresh \/ mon.lo[m] = 0 THEN prio[m] ELSE Min2(mon.lo[m], prio[m])])
 MinCnt(cnt, A) == IF A = {} THEN 0 ELSE CHOOSE c \in {cnt[m] : m \in A} : \A m \in A : cnt[m] >= c
 (* a selection of sel; prio = priorities after the step                                               *)
 MonSelect(mon, sel, prio) ==
@@ -52,18 +62,21 @@ MonSelect(mon, sel, prio) ==
       c0 == [m \in DOMAIN mon.cnt |-> IF m \notin A THEN 0 ELSE IF m = sel THEN mon.cnt[m] + prio[m] ELSE mon.cnt[m]]
       lo == MinCnt(c0, A)
       c == [m \in DOMAIN c0 |-> IF m \in A THEN c0[m] - lo ELSE 0] IN
-  [mon EXCEPT !.wait = TLCEval(w), !.pert = TLCEval(p), !.cnt = TLCEval(c)]
+  [mon EXCEPT !.wait = TLCEval(w), !.pert = TLCEval(p), !.cnt = TLCEval(c), !.hi = Max2(mon.hi, MaxPrio(prio)),
+             !.mx = MxStep(mon, prio, 0), !.lo = LoStep(mon, prio, 0)]
 (* a perturbation: everybody's allowance grows, the stretch restarts; a re-added or newly polled      *)
 (* message starts a new wait                                                                          *)
 MonPerturb(mon, kind, who, prio, K) ==
   LET A == Active(prio) IN
   [wait |-> TLCEval([m \in DOMAIN mon.wait |-> IF m \notin A \/ (kind = "readd" /\ m = who) THEN 0 ELSE mon.wait[m]]),
    pert |-> TLCEval([m \in DOMAIN mon.pert |-> IF m \notin A \/ (kind = "readd" /\ m = who) THEN 0 ELSE Min2(mon.pert[m] + 1, K + 1)]),
-   cnt |-> TLCEval([m \in DOMAIN mon.cnt |-> 0])]
+   cnt |-> TLCEval([m \in DOMAIN mon.cnt |-> 0]),
+   mx |-> MxStep(mon, prio, IF kind = "readd" THEN who ELSE 0), lo |-> LoStep(mon, prio, IF kind = "readd" THEN who ELSE 0),
+   hi |-> Max2(mon.hi, MaxPrio(prio))]
 
-WaitOk(mon, prio, K) == \A m \in Active(prio) : mon.pert[m] <= K => mon.wait[m] <= WaitBound(m, prio, mon.pert[m])
-PropOk(mon, prio) == \A m, k \in Active(prio) : mon.cnt[m] - mon.cnt[k] <= PropBound(prio)
-WaitWitness(mon, prio, K) == CHOOSE m \in Active(prio) : mon.pert[m] <= K /\ mon.wait[m] > WaitBound(m, prio, mon.pert[m])
+WaitOk(mon, prio, K) == \A m \in Active(prio) : mon.pert[m] <= K => mon.wait[m] <= WaitBound(m, prio, mon.pert[m], MxStep(mon, prio, 0), LoStep(mon, prio, 0))
+PropOk(mon, prio) == \A m, k \in Active(prio) : mon.cnt[m] - mon.cnt[k] <= PropBound(prio, Max2(mon.hi, MaxPrio(prio)))
+WaitWitness(mon, prio, K) == CHOOSE m \in Active(prio) : mon.pert[m] <= K /\ mon.wait[m] > WaitBound(m, prio, mon.pert[m], MxStep(mon, prio, 0), LoStep(mon, prio, 0))
 
 -----------------------------------------------------------------------------
 (* ------------------------------- S ------------------------------------- *)
